@@ -278,7 +278,11 @@ func runTCP(o tcpOpts, chunks [][]byte, v *verdict) {
 			vv = &w
 		}
 		if route == o.routes[0] {
-			checkName(o.leg, o.key, o.desc, name, serr, vv, o.recognise, func() map[string]any { return map[string]any{"chunks": hxs(chunks), "stream": hx(conn.all)} })
+			var firstRead []byte
+			if len(chunks) > 0 {
+				firstRead = chunks[0]
+			}
+			checkName(o.leg, o.key, o.desc, name, serr, vv, o.recognise, func() map[string]any { return map[string]any{"chunks": hxs(chunks), "stream": hx(conn.all)} }, firstRead)
 			if serr == nil && name != "" {
 				tstat.found.Add(1)
 			} else {
@@ -357,12 +361,37 @@ func errClass(err error) string {
 
 // checkName: the two name oracles. Safety: a reported name is DNS-equal to a carried one. Recognition: a required name
 // is reported when the arrival assumptions of the statement hold.
-func checkName(leg string, key, desc func() string, name string, err error, v *verdict, recognise bool, detailf func() map[string]any) {
+// unterminatedHostDiag labels the one recorded, unrepaired finding (see known_findings.json): sniffHTTPHostHeader treats
+// the last, UNTERMINATED line of the bytes it was given as a complete header. The label is attached only when the
+// reported name is exactly what that behaviour yields — the normalised text after "Host:" on an unterminated last line of
+// the bytes seen at sniff time — so any other wrong name keeps the plain class and is reported as a violation.
+func unterminatedHostDiag(seen []byte, reported string) string {
+	i := bytes.LastIndex(seen, []byte("\r\n"))
+	if i < 0 || i+2 >= len(seen) {
+		return ""
+	}
+	last := seen[i+2:]
+	k, val, ok := bytes.Cut(last, []byte(":"))
+	if !ok || !strings.EqualFold(strings.TrimSpace(string(k)), "host") {
+		return ""
+	}
+	want := sniffing.NormalizeDomain(strings.TrimSpace(string(val)))
+	if want != "" && (reported == want || sniffing.NormalizeDomain(reported) == want) {
+		return " diag=unterminated-host-line"
+	}
+	return ""
+}
+
+func checkName(leg string, key, desc func() string, name string, err error, v *verdict, recognise bool, detailf func() map[string]any, seen ...[]byte) {
 	if err == nil && name != "" && !v.allows(name) {
 		detail := detailf()
 		detail["reported"] = name
 		detail["carried"] = v.carried
-		report(leg, "wrong-name", key(), fmt.Sprintf("reported %q but the input carries %q input=%s", name, v.carried, desc()), detail)
+		diag := ""
+		if len(seen) > 0 {
+			diag = unterminatedHostDiag(seen[0], name)
+		}
+		report(leg, "wrong-name"+diag, key(), fmt.Sprintf("reported %q but the input carries %q input=%s", name, v.carried, desc()), detail)
 		return
 	}
 	if recognise && v.required && (err != nil || normName(name) != v.name) {
@@ -402,7 +431,7 @@ func runGuardedTCP(leg, key, desc string, data []byte, v *verdict) {
 			continue
 		}
 		if err == nil && name != "" && !v.allows(sniffing.NormalizeDomain(name)) && !v.allows(name) {
-			report(leg, "wrong-name-guarded", key, fmt.Sprintf("%s reported %q but the input carries %q input=%s", which, name, v.carried, desc), map[string]any{"input": hx(data)})
+			report(leg, "wrong-name-guarded"+unterminatedHostDiag(data, name), key, fmt.Sprintf("%s reported %q but the input carries %q input=%s", which, name, v.carried, desc), map[string]any{"input": hx(data)})
 		}
 	}
 }
